@@ -578,6 +578,106 @@ pub fn run(ctx: &Ctx) -> Result<Evidence, String> {
         });
         acc = Acc::merge(vec![acc, racc]);
     }
+    // number literals written with many digits: positional decimals with 1..40 fraction digits,
+    // integer parts of 17..25 digits before a fraction, 19..40 significant digits, exponent forms
+    // - the literal denotes the double that correct rounding gives (Rust's own parser is the
+    // oracle for decimal -> binary), and is compared with that double and its neighbours
+    {
+        let n_lits = ctx.tier.pick(3000, 300_000);
+        let seed = ctx.seed;
+        let lacc = par_run(ctx, n_lits, |i, acc: &mut Acc| {
+            let mut r = Rng::stream(seed, 9_000_000 + i as u64);
+            let x: f64 = match r.below(6) {
+                0 => 1.234567890123456e-8 * (1 + r.below(9)) as f64,
+                1 => 10f64.powi(-(r.below(30) as i32)),
+                2 => (r.below(1_000_000) as f64) / 7.0,
+                3 => f64::from_bits(0x3ff0000000000000 + r.below(1 << 20)),
+                4 => (r.next() % 100_000_000_000_000_000) as f64 + 0.5,
+                _ => f64::from_bits(r.next() & 0x7fef_ffff_ffff_ffff),
+            };
+            if !x.is_finite() || x == 0.0 {
+                return;
+            }
+            let text = match r.below(5) {
+                0 => format!("{:.*}", 1 + r.below(40) as usize, x),
+                1 => format!("{:.*e}", 15 + r.below(25) as usize, x),
+                2 => format!("{:.23}", x),
+                3 => format!("{}", x),
+                _ => format!("{:.*}", 17 + r.below(8) as usize, x),
+            };
+            // keep to what the grammar calls a number and to a bounded length
+            // (an integer spelling beyond 2^53-1 is not a valid literal: zone U2 of C06)
+            if text.len() > 120 || text.contains("inf") || text.contains("NaN") || !(text.contains('.') || text.contains('e')) {
+                return;
+            }
+            let text = if r.chance(1, 4) { format!("-{}", text) } else { text };
+            let lit: f64 = match text.parse() {
+                Ok(v) => v,
+                Err(_) => return,
+            };
+            if !lit.is_finite() {
+                return;
+            }
+            let neighbours = [lit, f64::from_bits(lit.to_bits() + 1), f64::from_bits(lit.to_bits().wrapping_sub(1))];
+            let doc = Doc::new(&J::Arr(neighbours.iter().filter(|v| v.is_finite()).map(|v| J::Obj(vec![("v".into(), J::float(*v))])).collect()));
+            for op in CmpOp::ALL {
+                let q = format!("$[?@.v {} {}]", op.text(), text);
+                acc.evaluations += 1;
+                let want: Vec<usize> = match &doc.j {
+                    J::Arr(items) => items.iter().enumerate().filter(|(_, it)| compare(op, it.child(&oracle::json::Step::Key("v".into())), Some(&J::float(lit)))).map(|(k, _)| k).collect(),
+                    _ => vec![],
+                };
+                match libapi::query_with_path(&q, &doc.value) {
+                    LibOutcome::Ok(ns) => {
+                        let got: Vec<usize> = ns.iter().filter_map(|n| doc.loc_of(n.0)).filter_map(|l| match l.first() { Some(oracle::json::Step::Idx(k)) => Some(*k), _ => None }).collect();
+                        if got != want {
+                            ctx.violate(&format!("{} keeps elements {:?} of the three neighbouring doubles, correct rounding of the literal gives {:?}", q, got, want), json!({"kind":"query","query": q, "document": serde_json::from_str::<serde_json::Value>(&doc.text()).unwrap_or_default()}));
+                        } else {
+                            acc.count("held", 1);
+                            acc.count("long_decimal_literals_held", 1);
+                        }
+                    }
+                    o => ctx.violate(&format!("{}: {}", q, o.brief()), json!({"kind":"query","query": q, "document": serde_json::from_str::<serde_json::Value>(&doc.text()).unwrap_or_default()})),
+                }
+            }
+        });
+        acc = Acc::merge(vec![acc, lacc]);
+    }
+    // member names that are wrapped in quotes next to their plain twins, as operands written in
+    // either quoting style (judged by the reference evaluator on the whole query)
+    {
+        let d = J::Obj(vec![("rows".into(), J::Arr(vec![
+            J::Obj(vec![("a".into(), J::int(1)), ("\"a\"".into(), J::int(2)), ("b".into(), J::int(1)), ("'b'".into(), J::int(2))]),
+            J::Obj(vec![("a".into(), J::int(2)), ("\"a\"".into(), J::int(2)), ("b".into(), J::str("x")), ("'b'".into(), J::Arr(vec![J::int(1)]))]),
+            J::Obj(vec![("a".into(), J::int(3)), ("b".into(), J::int(3))]),
+            J::Obj(vec![("\"a\"".into(), J::int(1)), ("'b'".into(), J::int(1))]),
+        ]))]);
+        let doc = Doc::new(&d);
+        let names_a = ["@[\"a\"]", "@['a']", "@.a", "@['\"a\"']"];
+        let names_b = ["@['b']", "@[\"b\"]", "@.b", "@[\"'b'\"]"];
+        let armed_q: Armed = arm(ctx, &|_| None)?;
+        let mut n = 0u64;
+        for set in [names_a, names_b] {
+            for l in set {
+                for r in set {
+                    for op in CmpOp::ALL {
+                        let q = format!("$.rows[?{} {} {}]", l, op.text(), r);
+                        let parsed = oracle::parse::analyze(&q);
+                        if parsed.ast.is_none() {
+                            continue;
+                        }
+                        n += 1;
+                        let j = crate::judge::judge_query(&q, &parsed, &doc, crate::judge::NODES, &armed_q);
+                        if let crate::judge::Verdict::Violated(m) = &j.verdict {
+                            ctx.violate(&format!("{}: {}", q, m), crate::judge::replay_json("query", &q, &doc, &j));
+                        }
+                    }
+                }
+            }
+        }
+        acc.count("quote_wrapped_operand_names_cases", n);
+        acc.evaluations += n;
+    }
     let mut ev = Evidence::new("cases = (lhs value, rhs value, operator, operand form pair): all ordered pairs of a value universe (Nothing + every JSON type incl. int/float twins, -0.0, 1e-17, 2^53-1, empty/nested containers, unicode strings) x 6 operators x operand forms (@.m, $.m, nested singular path, array element by index, literal in several number spellings, value(@.m)). Truth observed at the boundary as 'carrier element kept' for L op R and for !(L op R). A second exhaustive family: all ordered pairs of ~90 strings (length classes 1..65, long common prefixes, multi-byte characters at 8/16/32-byte boundaries, NUL, UTF-16 vs scalar order, look-alikes) x 6 operators x 3 form pairs, with the trichotomy law on the observed outcomes. The universe includes float-lattice neighbours, containers differing in a float's last bit, and integers above i64::MAX (open finding KF-C04-integers-beyond-i64, exact effect model). Non-trivial = distinct (type(lhs), type(rhs), op, form pair) cells.");
     ev.set("exhaustive", json!(true));
     ev.set("universe_size", json!(n));
